@@ -112,6 +112,11 @@ func (fe *mslFE) parseAttrs(p *parser) []mslAttr {
 			if p.accept(",") {
 				continue
 			}
+			if p.peek().Kind == TIdent {
+				// "[[color(0) index(1)]]": Apple's compiler accepts a blank
+				// between attributes (the form naga and its upstream emit)
+				continue
+			}
 			break
 		}
 		p.expect("]")
@@ -351,7 +356,10 @@ func (fe *mslFE) parseTypeName(p *parser, q *mslDeclQuals) *TypeExpr {
 		}
 		p.next()
 		tx.Name = n.Text
-	case t.Text == "auto" || t.Text == "decltype" || t.Text == "typename":
+	case t.Text == "auto":
+		p.next()
+		tx.Name = "auto"
+	case t.Text == "decltype" || t.Text == "typename":
 		t.Pos.unsupported(MSL, "%s type specifier", t.Text)
 	case t.Text == "metal":
 		p.next()
@@ -846,7 +854,7 @@ func (fe *mslFE) parseDeclStmt(p *parser) Stmt {
 		if start.Text != "struct" && start.Text != "class" {
 			start.Pos.unsupported(MSL, "%s declaration", start.Text)
 		}
-	case "typedef", "using", "static_assert", "extern", "thread_local", "register", "auto":
+	case "typedef", "using", "static_assert", "extern", "thread_local", "register":
 		start.Pos.unsupported(MSL, "local %s declaration", start.Text)
 	}
 	var q mslDeclQuals
@@ -863,6 +871,9 @@ func (fe *mslFE) parseDeclStmt(p *parser) Stmt {
 		vd.TypeX = &TypeExpr{Pos: tx.Pos, Name: tx.Name, Dims: dims}
 		vd.Quals.Const = q.Const || q.Constexpr
 		vd.Quals.Pos = q.Pos
+		if tx.Name == "auto" && (len(dims) > 0 || q.Space != "" || !(p.isPunct("=") && !(p.peekN(1).Kind == TPunct && p.peekN(1).Text == "{"))) {
+			tx.Pos.unsupported(MSL, "auto in this form of declaration")
+		}
 		switch q.Space {
 		case "", "thread":
 		case "threadgroup":
